@@ -15,6 +15,8 @@ ROW_KINDS = ("array2d", "array1d", "list2d", "list1d", "intarray", "frame", "ser
 BATCH_KINDS = ("array", "fortran", "frame", "lists", "intarray", "strided", "reused", "intframe", "dupframe", "dupindex")
 
 
+LOOSE_BATCH_KINDS = ("objarray", "objframe")       # accepted by HDDDM / CDBD / the kdq-tree detectors
+
 NARROW = {"uint8array": (np.uint8, 0, 255), "uint16array": (np.uint16, 0, 65535), "int32array": (np.int32, -2 ** 31, 2 ** 31 - 1)}
 
 
@@ -116,6 +118,12 @@ class Feeder:
             return pd.DataFrame(a.astype(np.int64) if whole else a, columns=self._names(d))
         if kind == "lists":
             return [_pyrow(r) for r in rows]
+        if kind in ("objarray", "objframe"):     # decoded records: an object-typed table of Python ints (where whole) and floats
+            o = np.empty((n, d), dtype=object)
+            for i, r in enumerate(rows):
+                for j, v in enumerate(_pyrow(r)):
+                    o[i, j] = v
+            return o if kind == "objarray" else pd.DataFrame(o, columns=self._names(d))
         if kind == "intarray":
             return a.astype(np.int64) if bool(np.all(a == np.round(a))) else a
         if kind in NARROW:
